@@ -1,7 +1,9 @@
 //! C02 (and, through `run_mc`, C03): the real `patronus::mc::bmc` against real solvers.
 //! One case per system:
 //! (case ID (sys ..) (named ..) (names ..) (k K) (simp (sys ..))?
-//!   (runs (run (profile P) (session fresh|reused) (mode indiv|joint) (simp raw|simplified) (z3args "..") RESULT)..))
+//!   (runs (run (profile P) (session fresh|reused|child) (mode indiv|joint|indiv+cc|joint+cc|pdr) (simp raw|simplified) (z3args "..") RESULT)..))
+//! mode: indiv/joint = bmc(.., false, individually, k); +cc = check_constraints = true; pdr = patronus::mc::pdr (C03 only,
+//! in a time-limited child process; its witness is the one of the BMC fallback after the solver restart)
 //! RESULT  = (success) | (unknown) | (err "msg") | (panic "msg") | (fail WITNESS (sim "ok"|"skipped: .."|"mismatch: .."))
 //! WITNESS = (witness (init (v NAME VAL)..) (inputs (step (v NAME VAL)..)..) (failed idx..))
 //! NAME    = "name" | (noname);   VAL = (bv w bits) | (arr iw dw bits..) | (none)
@@ -22,7 +24,7 @@ use crate::sysgen::dump_sys;
 use crate::util::*;
 use baa::{ArrayOps, BitVecOps, BitVecValue, Value};
 use patronus::expr::*;
-use patronus::mc::{InitValue, ModelCheckResult, Witness, bmc};
+use patronus::mc::{InitValue, ModelCheckResult, Witness, bmc, pdr};
 use patronus::sim::{InitKind, Interpreter, Simulator};
 use patronus::smt::*;
 use patronus::system::transform::simplify_expressions;
@@ -105,6 +107,9 @@ impl SolverMetaData for Wrap<'_> {
 
 impl SolverContext for Wrap<'_> {
     fn restart(&mut self) -> Result<()> {
+        // pdr restarts the solver before its BMC fallback: the get-value calls of the PDR part are not
+        // part of the witness extraction that follows
+        self.values.clear();
         self.inner.restart()
     }
     fn set_logic(&mut self, option: Logic) -> Result<()> {
@@ -209,9 +214,58 @@ pub fn watchdog_disarm() {
     WATCH_DEADLINE.store(0, std::sync::atomic::Ordering::SeqCst);
 }
 
+/// which entry point of patronus::mc a run calls (C03: the witnesses of all of them are checked)
+#[derive(Clone, Copy, PartialEq, Eq, Debug)]
+pub enum Engine {
+    /// bmc(.., check_constraints = false, ..)
+    Bmc,
+    /// bmc(.., check_constraints = true, ..)
+    BmcCc,
+    /// pdr(.., disable_unsat_cores = false): the witness comes from its BMC fallback after a restart
+    Pdr,
+}
+
+impl Engine {
+    pub fn mode_str(self, individually: bool) -> &'static str {
+        match (self, individually) {
+            (Engine::Bmc, true) => "indiv",
+            (Engine::Bmc, false) => "joint",
+            (Engine::BmcCc, true) => "indiv+cc",
+            (Engine::BmcCc, false) => "joint+cc",
+            (Engine::Pdr, _) => "pdr",
+        }
+    }
+    pub fn parse(mode: &str) -> (Engine, bool) {
+        match mode {
+            "indiv" => (Engine::Bmc, true),
+            "joint" => (Engine::Bmc, false),
+            "indiv+cc" => (Engine::BmcCc, true),
+            "joint+cc" => (Engine::BmcCc, false),
+            "pdr" => (Engine::Pdr, false),
+            other => panic!("unknown mode {other}"),
+        }
+    }
+}
+
 /// one call of the real `bmc`
 pub fn run_bmc(pool: &mut Pool, profile: &str, fresh: bool, ctx: &mut Context, sys: &TransitionSystem, individually: bool, k: u64) -> RunResult {
+    run_engine(pool, profile, fresh, ctx, sys, Engine::Bmc, individually, k)
+}
+
+fn call_engine(engine: Engine, ctx: &mut Context, w: &mut Wrap, sys: &TransitionSystem, individually: bool, k: u64) -> Result<ModelCheckResult> {
+    match engine {
+        Engine::Bmc => bmc(ctx, w, sys, false, individually, k),
+        Engine::BmcCc => bmc(ctx, w, sys, true, individually, k),
+        Engine::Pdr => pdr(ctx, w, sys, false),
+    }
+}
+
+/// one call of the real `bmc` / `pdr`
+#[allow(clippy::too_many_arguments)]
+pub fn run_engine(pool: &mut Pool, profile: &str, fresh: bool, ctx: &mut Context, sys: &TransitionSystem, engine: Engine, individually: bool, k: u64) -> RunResult {
     let solver = solver_of(profile);
+    // pdr restarts the solver process: never on a shared session
+    let fresh = fresh || engine == Engine::Pdr;
     pool.last_queries.clear();
     let to_res = |r: std::result::Result<Result<ModelCheckResult>, String>| match r {
         Ok(Ok(ModelCheckResult::Success)) => RunResult::Success,
@@ -230,7 +284,7 @@ pub fn run_bmc(pool: &mut Pool, profile: &str, fresh: bool, ctx: &mut Context, s
         };
         let (res, values) = {
             let mut w = Wrap { inner: &mut smt, depth: 0, logic_mismatch: false, pass_logic: true, values: Vec::new() };
-            let r = guarded(|| bmc(ctx, &mut w, sys, false, individually, k));
+            let r = guarded(|| call_engine(engine, ctx, &mut w, sys, individually, k));
             (r, w.values)
         };
         pool.last_queries = values;
@@ -255,7 +309,7 @@ pub fn run_bmc(pool: &mut Pool, profile: &str, fresh: bool, ctx: &mut Context, s
     }
     let (res, depth, mismatch, values) = {
         let mut w = Wrap { inner, depth: 0, logic_mismatch: false, pass_logic: false, values: Vec::new() };
-        let r = guarded(|| bmc(ctx, &mut w, sys, false, individually, k));
+        let r = guarded(|| call_engine(engine, ctx, &mut w, sys, individually, k));
         (r, w.depth, w.logic_mismatch, w.values)
     };
     pool.last_queries = values;
@@ -440,7 +494,7 @@ pub fn run_in_child(case_txt: &str, r: &RunSpec, limit_s: u64) -> String {
     let outp = format!("{stem}.out");
     std::fs::write(&inp, format!("{case_txt}\n")).expect("child input");
     let _ = std::fs::remove_file(&outp);
-    let spec = format!("{},{},{}", r.profile, if r.individually { "indiv" } else { "joint" }, if r.simplified { "simplified" } else { "raw" });
+    let spec = format!("{},{},{}", r.profile, r.engine.mode_str(r.individually), if r.simplified { "simplified" } else { "raw" });
     let exe = std::env::current_exe().expect("current exe");
     let child = std::process::Command::new(exe)
         .args(["C02", "--count", "0", "--cases-in", &inp, "--out", &outp, "--one-run", &spec])
@@ -450,7 +504,7 @@ pub fn run_in_child(case_txt: &str, r: &RunSpec, limit_s: u64) -> String {
     let head = format!(
         "(run (profile {}) (session child) (mode {}) (simp {}) (z3args \"\")",
         r.profile,
-        if r.individually { "indiv" } else { "joint" },
+        r.engine.mode_str(r.individually),
         if r.simplified { "simplified" } else { "raw" }
     );
     let mut child = match child {
@@ -501,6 +555,8 @@ pub struct RunSpec {
     pub simplified: bool,
     /// this process IS the time-limited child: run directly
     pub in_child: bool,
+    /// which entry point is called
+    pub engine: Engine,
 }
 
 pub struct McInput {
@@ -557,8 +613,32 @@ pub fn run_case(id: &str, inp: McInput, plan: &[RunSpec], pool: &mut Pool, z3arg
                 continue;
             }
         }
-        watchdog_arm(120, &format!("{} {} {}\n{}", r.profile, if r.individually { "indiv" } else { "joint" }, if r.simplified { "simplified" } else { "raw" }, case_txt));
-        let res = run_bmc(pool, r.profile, r.fresh, &mut ctx, the_sys, r.individually, k);
+        if r.engine == Engine::Pdr && !r.in_child {
+            // pdr's loops have no bound the harness could rely on: a child process with a wall-clock limit
+            stats.inc("pdr_runs_in_child_process_with_time_limit");
+            let txt = run_in_child(&case_txt, r, 40);
+            let verdict = if txt.contains("(hang ") {
+                "pdr:hang"
+            } else if txt.contains("(fail (witness") {
+                any_fail = true;
+                "pdr:fail"
+            } else if txt.contains("(unknown)") {
+                "pdr:unknown"
+            } else if txt.contains("(success)") {
+                "pdr:success"
+            } else if txt.contains("(panic ") {
+                "pdr:panic"
+            } else {
+                "pdr:err"
+            };
+            stats.bump("verdict", verdict);
+            stats.bump("config", &format!("{}/pdr/{}", r.profile, if r.simplified { "simplified" } else { "raw" }));
+            runs.push(' ');
+            runs.push_str(&txt);
+            continue;
+        }
+        watchdog_arm(120, &format!("{} {} {}\n{}", r.profile, r.engine.mode_str(r.individually), if r.simplified { "simplified" } else { "raw" }, case_txt));
+        let res = run_engine(pool, r.profile, r.fresh, &mut ctx, the_sys, r.engine, r.individually, k);
         watchdog_disarm();
         if r.profile == "z3" {
             z3_err[r.simplified as usize] = Some(matches!(res, RunResult::Err(_) | RunResult::Panic(_)));
@@ -594,13 +674,13 @@ pub fn run_case(id: &str, inp: McInput, plan: &[RunSpec], pool: &mut Pool, z3arg
                 format!("(fail {} (sim {}) {})", dump_witness(w), quote(&sim), q)
             }
         };
-        stats.bump("config", &format!("{}/{}/{}", r.profile, if r.individually { "indiv" } else { "joint" }, if r.simplified { "simplified" } else { "raw" }));
+        stats.bump("config", &format!("{}/{}/{}", r.profile, r.engine.mode_str(r.individually), if r.simplified { "simplified" } else { "raw" }));
         stats.bump("session", if r.fresh { "fresh-process" } else { "shared-process" });
         runs.push_str(&format!(
             " (run (profile {}) (session {}) (mode {}) (simp {}) (z3args {}) {})",
             r.profile,
-            if r.fresh { "fresh" } else { "reused" },
-            if r.individually { "indiv" } else { "joint" },
+            if r.fresh || r.engine == Engine::Pdr { "fresh" } else { "reused" },
+            r.engine.mode_str(r.individually),
             if r.simplified { "simplified" } else { "raw" },
             quote(if r.profile == "bitwuzla" || r.profile == "yices-smt2" { z3args } else { "" }),
             res_txt
@@ -674,12 +754,18 @@ pub fn run_mc(args: &Args, witness_focus: bool) {
         let mut plan = vec![];
         for p in PROFILES.iter() {
             *run_no += 1;
-            plan.push(RunSpec { profile: p, fresh: fresh_every > 0 && *run_no % fresh_every == 0, individually: rng.chance(1, 2), simplified: rng.chance(1, 2), in_child: false });
+            plan.push(RunSpec { profile: p, fresh: fresh_every > 0 && *run_no % fresh_every == 0, individually: rng.chance(1, 2), simplified: rng.chance(1, 2), in_child: false, engine: Engine::Bmc });
         }
         if diversity {
             // the same query again, other modes
-            plan.push(RunSpec { profile: "bitwuzla", fresh: false, individually: true, simplified: false, in_child: false });
-            plan.push(RunSpec { profile: "yices-smt2", fresh: false, individually: false, simplified: false, in_child: false });
+            plan.push(RunSpec { profile: "bitwuzla", fresh: false, individually: true, simplified: false, in_child: false, engine: Engine::Bmc });
+            plan.push(RunSpec { profile: "yices-smt2", fresh: false, individually: false, simplified: false, in_child: false, engine: Engine::Bmc });
+            // the other parameters of bmc and the other engine: check_constraints = true with individual
+            // checking (z3), check_constraints = true in the other mode behind the push/pop profile, and
+            // pdr (its witness is built by a BMC run after a solver restart)
+            plan.push(RunSpec { profile: "z3", fresh: false, individually: true, simplified: false, in_child: false, engine: Engine::BmcCc });
+            plan.push(RunSpec { profile: "yices-smt2", fresh: false, individually: rng.chance(1, 2), simplified: rng.chance(1, 3), in_child: false, engine: Engine::BmcCc });
+            plan.push(RunSpec { profile: "z3", fresh: true, individually: false, simplified: false, in_child: false, engine: Engine::Pdr });
         }
         plan
     };
@@ -694,13 +780,19 @@ pub fn run_mc(args: &Args, witness_focus: bool) {
                 // time-limited child of another harness process: exactly one run, directly
                 let parts: Vec<&str> = spec.split(',').collect();
                 let profile = *PROFILES.iter().find(|p| **p == parts[0]).expect("profile");
-                plan.push(RunSpec { profile, fresh: true, individually: parts[1] == "indiv", simplified: parts[2] == "simplified", in_child: true });
+                let (engine, individually) = Engine::parse(parts[1]);
+                plan.push(RunSpec { profile, fresh: true, individually, simplified: parts[2] == "simplified", in_child: true, engine });
             } else {
                 // replay: every profile, both modes, raw and simplified, fresh processes
                 for p in PROFILES.iter() {
                     for (ind, simp) in [(true, false), (false, false), (true, true), (false, true)] {
-                        plan.push(RunSpec { profile: p, fresh: true, individually: ind, simplified: simp, in_child: false });
+                        plan.push(RunSpec { profile: p, fresh: true, individually: ind, simplified: simp, in_child: false, engine: Engine::Bmc });
                     }
+                }
+                if witness_focus {
+                    plan.push(RunSpec { profile: "z3", fresh: true, individually: true, simplified: false, in_child: false, engine: Engine::BmcCc });
+                    plan.push(RunSpec { profile: "yices-smt2", fresh: true, individually: false, simplified: false, in_child: false, engine: Engine::BmcCc });
+                    plan.push(RunSpec { profile: "z3", fresh: true, individually: false, simplified: false, in_child: false, engine: Engine::Pdr });
                 }
             }
             let (line, _) = run_case(&id, McInput { ctx, sys, k, features: vec![] }, &plan, &mut pool, z3args, &mut stats, &mut child_budget);
